@@ -261,7 +261,8 @@ def check_library_calls(ctx: Ctx):
         rv = out.value
         ok = isinstance(rv, tuple) and len(rv) == 2 and isinstance(rv[0], Tagged) and rv[0].name.startswith("libout:") and rv[1] == Sym("N")
         narrowed = isinstance(rv, tuple) and len(rv) == 2 and not isinstance(rv[0], Tagged)
-        ctx.decide("R05.2", f, out.node, construct + ":return", "labelled array and count are returned as the library produced them (no cast to the input dtype)", True if ok else (False if narrowed else None), {"returned": repr(rv)})
+        cast = narrowed and ".astype(" in repr(rv[0]) and "libout:" in repr(rv[0])
+        ctx.decide("R05.2", f, out.node, construct + ":return", "labelled array and count are returned as the library produced them (no cast to the input dtype)", True if ok else (False if narrowed else None), {"returned": "the library's output passed through .astype(...)" if cast else repr(rv)})
     # unknown backend is rejected
     it = ApproxInterp(prog, f, {arr_p: AArr("IN", False), be_p: Sym("OTHER")})
     out = it.run()
